@@ -22,8 +22,30 @@ def slg_with(ms):
 # running
 # ---------------------------------------------------------------------------------------
 
-def case(text, solver, steps, cpu=6, stack_mb=16):
-    return ("Case", sx.Str(text), solver, steps, [("Cpu", cpu), ("StackMb", stack_mb)])
+def case(text, solver, steps, cpu=6, stack_mb=16, trace=False):
+    """trace=True: every step also reports the names of the database callbacks it made (key "trace")"""
+    return ("Case", sx.Str(text), solver, steps, [("Cpu", cpu), ("StackMb", stack_mb)] + (["Trace"] if trace else []))
+
+
+# callbacks through which the unifier reaches the database (RustIrDatabase::unification_database and the
+# UnificationDatabase methods)
+UNIF_CALLBACKS = ("unification_database", "adt_variance", "fn_def_variance")
+
+
+def resolution_calls(trace):
+    """indices of the unification callbacks made while clauses are being RESOLVED against a goal: those whose
+    latest preceding other callback is `program_clauses_for_env`, the last thing both solvers ask for when they
+    collect the clauses of a goal (the same callbacks made earlier by the could_match pre-filter follow
+    impl_datum / trait_datum / custom_clauses)."""
+    out, last = [], None
+    for i, n in enumerate(trace or []):
+        n = str(n)
+        if n in UNIF_CALLBACKS:
+            if last == "program_clauses_for_env":
+                out.append(i)
+        else:
+            last = n
+    return out
 
 
 def solve_step(g):
@@ -59,6 +81,8 @@ def run(cases, timeout=1200):
         for s in r[1]:
             if sx.head(s) == "S":
                 steps.append({"ans": s[1], "db": s[2], "sc": s[3], "slg": s[4], "rec": s[5]})
+                if len(s) > 6:
+                    steps[-1]["trace"] = [str(x) for x in s[6]]
             else:
                 steps.append({"ans": ("GoalError", s[1] if len(s) > 1 else ""), "db": 0, "sc": 0, "slg": 0, "rec": 0})
         res.append(steps)
@@ -665,6 +689,16 @@ def sweep_programs():
                 "sweep-two-enumerations")
     out.append((p, [("exists", (1,), ("and", (("atom", ("Sour", (v(1),))), ("atom", ("Sweet", (v(1),))))))],
                 [("slg-ms4", slg_with(4)), ("rec-ms4", rec_with(100, True, 4))]))
+    # the mock program of the repo's tests/integration/panic.rs, and a parametric variant whose clause
+    # resolution also looks up a variance: a fault in the n-th callback for EVERY n, including the
+    # unification_database() / adt_variance calls made while a clause is resolved against the goal
+    p = pg.Prog([pg.Adt("Foo")], [pg.Trait("Bar")], [pg.Impl(0, ("Bar", (A("Foo"),)))], "sweep-panic-rs")
+    out.append((p, [("atom", ("Bar", (A("Foo"),)))], [("slg", SLG), ("rec", REC)]))
+    p = pg.Prog([pg.Adt("Foo"), pg.Adt("Vec", 1)], [pg.Trait("Bar"), pg.Trait("Baz")],
+                [pg.Impl(0, ("Bar", (A("Foo"),))), pg.Impl(1, ("Bar", (A("Vec", v(0)),)), [("Baz", (v(0),))]),
+                 pg.Impl(0, ("Baz", (A("Foo"),))), pg.Impl(1, ("Baz", (A("Vec", v(0)),)), [("Bar", (v(0),))])], "sweep-variance")
+    out.append((p, [("atom", ("Bar", (A("Vec", A("Vec", A("Foo"))),))), ("atom", ("Baz", (A("Vec", A("Foo")),)))],
+                [("slg", SLG), ("rec", REC)]))
     return out
 
 
